@@ -60,6 +60,12 @@ CHECKS["C17"] = dict(
    text="TLC checks Confined, ConflictIsError, AllOrNothing, NothingBeforeWritePhase and DeterministicOutput for every assignment of 10 path shapes to 2-3 plugins, with and without a failing module, over all module-walk, plugin-completion and write orders. The real binary is run on: k-th of n modules failing (n = 2..4, every k), nested directory layouts under default/explicit/too narrow thrift roots, no-recurse, nested output dirs (expected path sets computed from file locations alone), every pair of 11 plugin path shapes (relative, absolute, '..', '.', repeated separators, equal to a core path, equal to the other plugin's path) and plugin failures; the sandbox around the output directory is listed before and after each run.",
    note="I/O failure during the write loop is outside the property's antecedent. Trusted: TLC, the fake plugin, file listing with sha256.")
 
+CHECKS["C18"] = dict(
+   level="model_checking", ref="DESIGN.md section 5 (C18), Pools.tla, FrameClient.tla",
+   technique="TLA+ models of the five sync.Pools (Pools.tla) and of concurrent Sends on one frame client (FrameClient.tla) model-checked by TLC over all interleavings (negative controls: double Close, no mutex); TLC-generated schedules forced on the real frame client through a blocking gate hook; pool-hook event logs of race-detector stress runs replayed through the model's holder map by C18Trace.tla",
+   text="Design: every interleaving of 2-3 operations (Encode, Decode of a lazy list with force and Close, stream encode/decode) over 2 objects per pool incl. GC of pooled objects keeps OneHolder, NotPooledWhileHeld, CleanInPool, Isolated, AllReturned; every interleaving of 3 Sends keeps OwnReply. Code: all complete schedules of the lock-free client model are replayed on the real frame.Client through the verif gate (a schedule the mutex forbids simply blocks), and K in 2..64 goroutines of 8 operation kinds on private random values run under -race with GOMAXPROCS 1/2/16 and forced GCs while the pool hooks log every Get/Put; TLC checks that each object is put back by its holder after its reset, that a pooled object comes back clean, that each operation's digest equals its sequential digest, that K concurrent Sends get their own replies and that a K-way plugin fan-out merges without loss.",
+   note="On the real code the schedule is sampled for the pools (stress + race detector) and enumerated only for the frame client (gate). Lazy containers may be dropped without Close, so double holding of those is detected at the next Put. Trusted: TLC, runtime race detector, goroutine ids from runtime.Stack.")
+
 NOT_YET = {}
 
 def main():
